@@ -39,11 +39,12 @@ def run_shard(check_class, tier, seed, shard, nshards, triage=False):
     harness_errors = []
 
     def run_case(case, origin):
-        try:
-            found = check.judge(case)
-        except Exception:  # pylint: disable=broad-except
-            harness_errors.append({'case': core.jsonable(case), 'trace': traceback.format_exc()[-1500:]})
-            return []
+        with core.case_time_zone(check, case):
+            try:
+                found = check.judge(case)
+            except Exception:  # pylint: disable=broad-except
+                harness_errors.append({'case': core.jsonable(case), 'trace': traceback.format_exc()[-1500:]})
+                return []
         for violation in found:
             counts[violation.key] += 1
             if violation.key not in observed:
@@ -75,7 +76,8 @@ def run_shard(check_class, tier, seed, shard, nshards, triage=False):
         if any(core.key_matches(entry_key, key) for entry_key in open_keys):
             continue
         try:
-            again = check.judge(violation.case)
+            with core.case_time_zone(check, violation.case):
+                again = check.judge(violation.case)
         except Exception:  # pylint: disable=broad-except
             again = []
         if any(v.key == key for v in again):
@@ -202,6 +204,8 @@ def main(argv=None):  # pylint: disable=too-many-locals,too-many-branches,too-ma
     parser.add_argument('--replay', default=None)
     parser.add_argument('--triage', action='store_true')
     parser.add_argument('--shards', type=int, default=None)
+    parser.add_argument('--emit-all', default=None,
+                        help='development aid (with --triage): dump one witness case per observed key, known ones included')
     parser.add_argument('--emit-findings', default=None,
                         help='development aid: dump the unknown violations as known-findings entries for review')
     args = parser.parse_args(argv)
@@ -217,7 +221,8 @@ def main(argv=None):  # pylint: disable=too-many-locals,too-many-branches,too-ma
             record = json.load(handle)
         check = check_class(args.tier, seed)
         check.setup()
-        found = check.judge(record['case'])
+        with core.case_time_zone(check, record['case']):
+            found = check.judge(record['case'])
         for violation in found:
             print('REPRODUCED %s: %s' % (violation.key, violation.what))
         if any(v.key == record.get('key') for v in found):
@@ -263,6 +268,9 @@ def main(argv=None):  # pylint: disable=too-many-locals,too-many-branches,too-ma
             print('VIOLATION property=%s replay=%s' % (prop, path))
             print('  key=%s\n  what=%s' % (key, violation['what'][:300]))
 
+    if args.emit_all:
+        with open(args.emit_all, 'w') as handle:
+            json.dump(merged['observed_case'], handle, indent=1)
     if args.emit_findings:
         with open(args.emit_findings, 'w') as handle:
             json.dump([{'property': prop, 'status': 'open', 'key': key, 'what': violation['what'][:300],
